@@ -158,6 +158,28 @@ theorem double_define_refused (top : Scope) (rest : Scopes) (n : String) (k : Op
     resolveGo (top :: rest) (.list true [.op .DEFINE, .sym n k, body]) = Option.none := by
   simp [resolveGo, h]
 
+/-- **the key of a `case` clause is data**: resolution hands it on exactly as written (a key that is the name of a
+    variable in scope is not turned into a resolved symbol, which symbol equality would tell apart from `'k`) -/
+theorem case_key_untouched (sc : Scopes) (k : Sx) (cons r out : List Sx) (sc' : Scopes)
+    (h : resolveClauses sc (.list true (k :: cons) :: r) = some (out, sc')) :
+    ∃ cons' r', out = .list true (k :: cons') :: r' := by
+  simp only [resolveClauses] at h
+  repeat' split at h
+  all_goals first
+    | (simp at h; done)
+    | (simp only [Option.some.injEq, Prod.mk.injEq] at h
+       obtain ⟨rfl, _⟩ := h
+       exact ⟨_, _, rfl⟩)
+
+/-- `(let ([k 1]) (case 'k (k 10) (default 20)))`: 10 with and without resolution -/
+def caseProg : Sx :=
+  .list true [.op .LET, .list true [.list true [.sym "k" Option.none, .int 1]],
+    .list true [.op .CASE, .list true [.op .QUOTE, .sym "k" Option.none],
+      .list true [.sym "k" Option.none, .int 10], .list true [.sym "default" Option.none, .int 20]]]
+example : ((resolve [] caseProg).bind (fun p => (eval 14 {} p).toOption)).map (fun r => match r.1 with | .int i => i | _ => -1) = some 10 := by
+  decide +kernel
+example : ((eval 14 {} caseProg).toOption).map (fun r => match r.1 with | .int i => i | _ => -1) = some 10 := by decide +kernel
+
 /-! ## non-vacuity: an assignment two frames below its binding; a local recursive function shadowing a global -/
 
 def prog : Sx :=   -- (let ([a 1]) (let ([p 2]) ((fn [] (set [a (+ a 5)]))) a))
